@@ -103,7 +103,7 @@ theorem rhe_nearest (q : Rat) (n : Int) :
 theorem reorder_perm (rs rs' : List Record) (order : List StrId)
     (hids : (rs.map (·.cellId)).Nodup) (hord : order.Nodup)
     (hsub : ∀ r ∈ rs, r.cellId ∈ order)
-    (h : reorder rs order = .ok rs') (hmap : rs'.map (·.cellId) = order)
+    (hmap : rs'.map (·.cellId) = order)
     (hmem : ∀ r ∈ rs', r ∈ rs) : rs'.Perm rs := by
   have d1 : rs'.Nodup := List.Nodup.of_map (·.cellId) (by rw [hmap]; exact hord)
   have d2 : rs.Nodup := List.Nodup.of_map (·.cellId) hids
